@@ -132,6 +132,8 @@ class StmtMixin:
                 self.raise_if(z3.Or(k < 0, k >= n), "IndexError", "store index")
                 H.list_set(self.st, r, k, self.need_term(v))
                 return
+            if getattr(self, "lenient", False):
+                return      # lenient mode: a store into an opaque container has no effect on authorization
             raise Unsupported(f"subscript store on {base.ty}")
         if isinstance(target, (ast.Tuple, ast.List)):
             elems = self.unpack(v, len(target.elts), fr)
@@ -279,6 +281,8 @@ class StmtMixin:
 
     def st_For(self, node, fr):
         spec = self.find_loop_spec(node, fr)
+        if spec is None and getattr(self, "lenient", False):
+            spec = LoopSpec(frame={})   # lenient mode: abstract loop; locals and NEW objects are havocked, existing objects kept
         itsv = self.ev(node.iter, fr)
         if itsv.meta and itsv.meta[0] == "lazyiter":
             d = itsv.meta[1]
